@@ -80,7 +80,7 @@ def run_ops(size, policy, ops, res=None, drain=True, via_setter=False, cost_type
         for p in range(size):
             want = c.GRAY if p in queued else (c.BLACK if p in removed_set else c.WHITE)
             if col[p] != want:
-                res.violate("colour", "C05/colour", f"after {tag}: color[{p}]={col[p]} expected {want}")
+                res.see("colour_convention_deviates")       # the statement does not fix the colour bookkeeping: observed, never a verdict
                 break
 
     removed_set = set()
